@@ -26,19 +26,25 @@ theorem inv_step_lts (fuel : Nat) (h : Inv2 F flow size cfg Lmax P s a) (hp : po
     ∃ s' a' new, step (prog F flow size cfg P) (fuel + 1) s = .ok s' ∧ Inv2 F flow size cfg Lmax P s' a' ∧ a'.mu F + 1 ≤ a.mu F ∧
       AStep F flow size cfg P s.events.size s.eid a q a' new ∧ s'.now = q.time ∧
       histOf s'.trace = histOf s.trace ++ new ∧
-      ∃ acts, (∀ x ∈ acts, DRR.ActOk (Lmax : ℚ) x) ∧
-        runActs (DRR.sched cfg) (toM cfg.flows flow size a (histOf s.trace) s.now) acts =
+      ∃ acts0 acts, acts0.length ≤ 1 ∧ acts.length ≤ 1 ∧ (∀ x ∈ acts0 ++ acts, DRR.ActOk (Lmax : ℚ) x) ∧
+        runActs (DRR.sched cfg) (toM cfg.flows flow size a (histOf s.trace) s.now) acts0 =
+          .ok (toM cfg.flows flow size a (histOf s.trace) s'.now, [], []) ∧
+        runActs (DRR.sched cfg) (toM cfg.flows flow size a (histOf s.trace) s'.now) acts =
+          .ok (toM cfg.flows flow size a' (histOf s'.trace) s'.now, putPk flow size new, outPk flow size new) ∧
+        runActs (DRR.sched cfg) (toM cfg.flows flow size a (histOf s.trace) s.now) (acts0 ++ acts) =
           .ok (toM cfg.flows flow size a' (histOf s'.trace) s'.now, putPk flow size new, outPk flow size new) := by
   obtain ⟨s', a', new, h1, h2, h3, h4, h5, h6⟩ := inv_step fuel h.i hp
   have hmin := (isMin_of_pop h.i.k hp).1
-  obtain ⟨acts0, ha0, h0⟩ := lts_advance (size := size) (hist := histOf s.trace) h.i.a hmin
-  obtain ⟨⟨acts, ha, h7⟩, hl'⟩ := lts_step (h.i.a.advance hmin) hmin h.l h4
+  obtain ⟨acts0, hlen0, ha0, h0⟩ := lts_advance (size := size) (hist := histOf s.trace) h.i.a hmin
+  obtain ⟨⟨acts, hlen, ha, h7⟩, hl'⟩ := lts_step (h.i.a.advance hmin) hmin h.l h4
   have hh' := hok_step (h.i.a.advance hmin) h.h h4
-  refine ⟨s', a', new, h1, ⟨h2, by rw [h6]; exact hl', by rw [h6]; exact hh'⟩, h3, h4, h5, h6, acts0 ++ acts, ?_, ?_⟩
+  refine ⟨s', a', new, h1, ⟨h2, by rw [h6]; exact hl', by rw [h6]; exact hh'⟩, h3, h4, h5, h6, acts0, acts, hlen0, hlen, ?_, ?_, ?_, ?_⟩
   · intro x hx
     rcases List.mem_append.mp hx with hx | hx
     · exact ha0 x hx
     · exact ha x hx
+  · rw [h5]; exact h0
+  · rw [h5, h6]; exact h7
   · rw [h5, h6]
     have := runActs_append _ _ _ _ _ _ _ _ _ _ h0 h7
     simpa using this
@@ -81,11 +87,11 @@ theorem reach_lts (fuel : Nat) {arrivals : List (ℚ × Int)} (hw : WorkOK flow 
     | none => simp [_root_.step, hp, StepResult.state?] at hs
     | some qr =>
       obtain ⟨q, rest⟩ := qr
-      obtain ⟨s'', a', new, h1, h2, -, -, -, h6, acts', hact', h7⟩ := inv_step_lts fuel hi hp
+      obtain ⟨s'', a', new, h1, h2, -, -, -, h6, acts0, acts1, -, -, hact', -, -, h7⟩ := inv_step_lts fuel hi hp
       rw [h1] at hs
       simp only [StepResult.state?, Option.some.injEq] at hs
       subst hs
-      refine ⟨a', acts ++ acts', h2, ?_, ?_⟩
+      refine ⟨a', acts ++ (acts0 ++ acts1), h2, ?_, ?_⟩
       · intro x hx
         rcases List.mem_append.mp hx with hx | hx
         · exact hact x hx
